@@ -399,6 +399,15 @@ func mangleStrD(in string, joliet bool) stringD {
 	return stringD(ret)
 }
 
+// truncate cuts string to fit fixed-size field (size must be even to not break utf16 characters).
+func (s stringD) truncate(size int) stringD {
+	if len(s) > size {
+		return s[:size]
+	}
+
+	return s
+}
+
 func mangleStrD1(in string, joliet bool) stringD1 {
 	ret := strings.Map(func(r rune) rune {
 		for _, i := range d1Characters {
